@@ -16,18 +16,28 @@ Modelled since the deepening round: `optsRetry` (last `retry-config` wins), `wra
 `_wrapped_methods` table: one entry per RPC of the service followed by one `default_timeout=None` entry per
 mixin RPC — mixin RPCs never get service-config defaults, named or not).
 
+Modelled since the SECOND deepening round: `_to_float` on Python's whole numeric grammar `[sign] mantissa
+[(e|E) [sign] digits]` / `[sign] digits n` (`parseFloat?`, `parseInt?`; exact rationals), with theorems for ALL
+digit strings (Props/C09 `to_float_*`, Lemmas/C09); `selectorService` (the selector's `service` is built from the
+package of the FILE that declares the service: sub-package services are named by their proto full name).
+
 NOT modelled (stated, so that nobody reads more into the theorems):
 * the KEY of a table entry (`method.transport_safe_name|snake_case`): names are C03/C12's subject; the harness
   takes the key from the real `Method` object;
 * `_wrap_method`'s `kind=` keyword of the async transports and api-core's choice of gRPC vs REST error
-  wrapping; REST status → exception mapping (the property is about gRPC status codes);
+  wrapping; REST status → exception mapping (the property is about gRPC status codes; T3 calls the sync REST
+  client only with status codes whose api-core class survives the HTTP status); rest_asyncio calls (table only);
 * the call-time `wrap_method(..., default_timeout=None)` of the IAM helper methods emitted with
   `add-iam-methods` (client.py.j2 / async_client.py.j2) — same shape as a mixin entry;
-* `_to_float` on literals outside `d+[.d*]` / `.d+` / `d+n` (sign, exponent, underscores, blanks, inf/nan):
-  `toFloat?` answers `none` = "outside the model";
+* `_to_float` on literals with blanks around the number, `_` between digits, `inf` / `infinity` / `nan`,
+  non-ASCII digits (`toFloat?` answers `none` = "outside the model"); binary64 rounding, overflow and the two
+  roundings of `int(..) / 1e9` for 2^53 ns or more (the harness rounds the exact rational);
 * extra keys inside a `name` element, a `name` that is not a list (the generator raises TypeError);
 * `maxAttempts` beyond being carried into `RetryInfo` (the templates never read it);
-* real time, the distribution of the jitter, attempts that take time, client-streaming retries.
+* the streaming kind of a method: the table and the loop are the same for unary, server-streaming, client-
+  streaming and bidi RPCs in the generator; that api-core's asyncio wrappers do not retry the status of a
+  client-streaming / bidi call is api-core's behaviour (observed by T3, recorded as an assumption);
+* real time, the distribution of the jitter, attempts that take time.
 -/
 namespace GapicModel.Model.Retry
 
@@ -105,9 +115,7 @@ def natOfDigits? (cs : List Char) : Option Nat :=
 
 def pow10 (k : Nat) : Rat := ((10 ^ k : Nat) : Rat)
 
-/-- `float(body)` for the plain decimals `d+`, `d+.`, `d+.d+`, `.d+`.  `none` = anything else: Python
-either raises ValueError or reads a literal with sign, exponent, underscores, blanks, inf/nan —
-outside the model (DESIGN §7.9 "durations are decimal seconds"). -/
+/-- an unsigned decimal mantissa `d+`, `d+.`, `d+.d+`, `.d+` -/
 def parseDecimal? (body : List Char) : Option Rat :=
   let ip := body.takeWhile (· ≠ '.')
   let rest := body.dropWhile (· ≠ '.')
@@ -121,6 +129,36 @@ def parseDecimal? (body : List Char) : Option Rat :=
     | some i, some f => some ((i : Rat) + (f : Rat) / pow10 fp.length)
     | _, _ => none
 
+/-- one optional leading sign: `(negative, rest)` -/
+def splitSign : List Char → Bool × List Char
+  | '-' :: r => (true, r)
+  | '+' :: r => (false, r)
+  | cs => (false, cs)
+
+def applySign (neg : Bool) (r : Rat) : Rat := if neg then -r else r
+
+def notExp (c : Char) : Bool := c ≠ 'e' ∧ c ≠ 'E'
+
+/-- `float(body)` for `[sign] mantissa [(e|E) [sign] d+]` as an EXACT rational (binary64 rounding, overflow to
+`inf` and underflow are the harness's business: it rounds the rational correctly and compares).  `none` =
+Python raises ValueError, or the literal uses what the model leaves out: blanks around the number, `_`
+between digits, `inf` / `infinity` / `nan`, non-ASCII digits. -/
+def parseFloat? (body : List Char) : Option Rat :=
+  let su := splitSign body
+  let mant := su.2.takeWhile notExp
+  match su.2.dropWhile notExp with
+  | [] => (parseDecimal? mant).map (applySign su.1)
+  | _ :: ex =>
+    let se := splitSign ex
+    match parseDecimal? mant, natOfDigits? se.2 with
+    | some m, some e => some (applySign su.1 (if se.1 then m / pow10 e else m * pow10 e))
+    | _, _ => none
+
+/-- `int(body)` for `[sign] d+` (again without blanks / underscores / non-ASCII digits) -/
+def parseInt? (body : List Char) : Option Rat :=
+  let su := splitSign body
+  (natOfDigits? su.2).map fun n => applySign su.1 (n : Rat)
+
 /-- `_to_float(s)`: `int(s[:-1]) / 1e9 if s.endswith("n") else float(s[:-1])`.  The last character is
 dropped whatever it is (the code never checks for `s`). -/
 def toFloat? (s : List Char) : Option Rat :=
@@ -128,8 +166,8 @@ def toFloat? (s : List Char) : Option Rat :=
   | [] => none                                   -- float("") raises
   | last :: rb =>
     let body := rb.reverse
-    if last = 'n' then (natOfDigits? body).map (fun n => (n : Rat) / pow10 9)
-    else parseDecimal? body
+    if last = 'n' then (parseInt? body).map (fun n => n / pow10 9)
+    else parseFloat? body
 
 /-! ### The service config as the generator reads it -/
 
@@ -155,6 +193,13 @@ deriving Repr, DecidableEq
 
 /-- `opts.retry["methodConfig"]` -/
 abbrev ServiceConfig := List MethodConfig
+
+/-- the `service` of a method's selector: `"{package}.{service_name}"` with `package = ".".join(service_address.package)`
+— the proto package of the FILE that declares the service (for a service of a sub-package `acme.lib.v1.admin`
+of the API `acme.lib.v1` that is the sub-package), i.e. the service's proto full name.  The API's root package,
+the python module path and `autogen-snippets` play no part. -/
+def selectorService (filePackage : List String) (name : String) : String :=
+  ".".intercalate filePackage ++ "." ++ name
 
 /-- `selector in c.get("name")` with `selector = {"service": pkg.Service, "method": Method}`:
 dict equality, so a service-wide name (no `method`) never matches. -/
